@@ -279,26 +279,26 @@ theorem set_ext (s t : PySet.S) (hs : SetWF s) (ht : SetWF t) (h : ∀ x, x ∈ 
   exact List.Perm.eq_of_pairwise (fun a b _ _ h1 h2 => by omega) hs' ht' hp
 
 theorem set_step_wf (choose : PySet.S → Int) (s : ReplSet.State) (o : SetOp) (h : SetWF s.data) :
-    SetWF (ReplSet.step choose s o).1.data := by
+    SetWF (ReplSet.stepWith choose s o).1.data := by
   cases o with
   | reset v =>
-    cases v <;> simp only [ReplSet.step] <;> try exact h
+    cases v <;> simp only [ReplSet.stepWith] <;> try exact h
     exact update_wf [] _ List.Pairwise.nil
   | add x => exact add_wf x _ h
   | remove x =>
     by_cases hx : x ∈ s.data
-    · have : ReplSet.step choose s (.remove x) = (⟨s.data.erase x⟩, .ok .none) := by
-        simp [ReplSet.step, PySet.remove, hx]
+    · have : ReplSet.stepWith choose s (.remove x) = (⟨s.data.erase x⟩, .ok .none) := by
+        simp [ReplSet.stepWith, PySet.remove, hx]
       rw [this]; exact erase_wf _ _ h
-    · have : ReplSet.step choose s (.remove x) = (s, .err .KeyError) := by
-        simp [ReplSet.step, PySet.remove, hx]
+    · have : ReplSet.stepWith choose s (.remove x) = (s, .err .KeyError) := by
+        simp [ReplSet.stepWith, PySet.remove, hx]
       rw [this]; exact h
   | discard x => exact erase_wf _ _ h
   | pop =>
     obtain ⟨d⟩ := s
     cases d with
     | nil => exact h
-    | cons a t => simp only [ReplSet.step, PySet.pop]; exact erase_wf _ _ h
+    | cons a t => simp only [ReplSet.stepWith, PySet.pop]; exact erase_wf _ _ h
   | clear => exact List.Pairwise.nil
   | update o => exact update_wf _ _ h
   | _ => exact h
@@ -314,5 +314,76 @@ theorem set_pop_spec (choose : PySet.S → Int) (s : PySet.S) (h : SetWF s) (hne
     split
     · assumption
     · exact List.mem_cons_self
+
+/-! ### the implemented choice of `ReplSet.pop` (D20 repaired) -/
+theorem foldl_pick_mem (p : Int → Int → Prop) [DecidableRel p] (x : Int) (xs : List Int) :
+    xs.foldl (fun m y => if p y m then y else m) x ∈ x :: xs := by
+  induction xs generalizing x with
+  | nil => simp
+  | cons y ys ih =>
+    simp only [List.foldl_cons]
+    by_cases hp : p y x
+    · simp only [hp, if_true]
+      have := ih y
+      exact List.mem_cons_of_mem _ this
+    · simp only [hp, if_false]
+      have := ih x
+      rcases List.mem_cons.mp this with h | h
+      · rw [h]; exact List.mem_cons_self
+      · exact List.mem_cons_of_mem _ (List.mem_cons_of_mem _ h)
+
+theorem minRepr_mem (s : PySet.S) (h : s ≠ []) : PySet.minRepr s ∈ s := by
+  cases s with
+  | nil => exact absurd rfl h
+  | cons x xs => exact foldl_pick_mem (fun y m => PySet.reprKey y < PySet.reprKey m) x xs
+
+theorem foldl_pick_min (x : Int) (xs : List Int) :
+    ∀ y ∈ x :: xs, ¬ PySet.reprKey y <
+      PySet.reprKey (xs.foldl (fun m y => if PySet.reprKey y < PySet.reprKey m then y else m) x) := by
+  induction xs generalizing x with
+  | nil =>
+    intro y hy
+    simp at hy; subst hy
+    exact List.lt_irrefl _
+  | cons z zs ih =>
+    intro y hy
+    simp only [List.foldl_cons]
+    by_cases hz : PySet.reprKey z < PySet.reprKey x
+    · simp only [hz, if_true]
+      rcases List.mem_cons.mp hy with rfl | hy
+      · intro hlt
+        exact ih z z List.mem_cons_self (List.lt_trans hz hlt)
+      · exact ih z y hy
+    · simp only [hz, if_false]
+      rcases List.mem_cons.mp hy with rfl | hy
+      · exact ih y y List.mem_cons_self
+      · rcases List.mem_cons.mp hy with rfl | hy
+        · have h1 := ih x x List.mem_cons_self
+          rw [List.not_lt] at *
+          exact List.le_trans h1 hz
+        · exact ih x y (List.mem_cons_of_mem _ hy)
+
+/-- `minRepr s` is a member with the smallest `repr` key -/
+theorem minRepr_min (s : PySet.S) : ∀ y ∈ s, ¬ PySet.reprKey y < PySet.reprKey (PySet.minRepr s) := by
+  cases s with
+  | nil => intro y hy; cases hy
+  | cons x xs => exact foldl_pick_min x xs
+
+/-- the repaired method body is the generic battery with `choose := minRepr` -/
+theorem set_step_eq (s : ReplSet.State) (o : SetOp) :
+    ReplSet.step s o = ReplSet.stepWith PySet.minRepr s o := by
+  cases o with
+  | pop =>
+    obtain ⟨d⟩ := s
+    cases d with
+    | nil => rfl
+    | cons a t =>
+      have hm := minRepr_mem (a :: t) (by simp)
+      simp only [ReplSet.step, ReplSet.stepWith, PySet.pop, PySet.remove, List.isEmpty_cons, hm, if_true]
+      rfl
+  | _ => rfl
+
+theorem set_step_funext : ReplSet.step = ReplSet.stepWith PySet.minRepr := by
+  funext s o; exact set_step_eq s o
 
 end PSO.Batteries
